@@ -111,14 +111,17 @@ type builtBlock struct {
 	txs     []builtTx
 	sponsor []byte
 	block   *types.Block
+	before  *chainView
 	after   *chainView
+	nid     int
+	fork    int
 }
 
 var globalRefs = map[string]common2.Output{} // every output a vote-cancelling input may refer to
 
 // build turns the items of one block into transactions, given the chain view before the block.
 func build(h uint32, items []item, nid int, cv *chainView, fork int) *builtBlock {
-	bb := &builtBlock{height: h, items: items}
+	bb := &builtBlock{height: h, items: items, before: cv, nid: nid, fork: fork}
 	after := cv.clone()
 	params := sharedParamsGet()
 	idx := 0
@@ -574,9 +577,10 @@ func (in *inst) totals() map[string]common.Fixed64 {
 // replay
 
 type ctx struct {
-	beh   rep.Behaviour
-	span  int
-	stats map[string]int
+	beh           rep.Behaviour
+	span          int
+	stats         map[string]int
+	seenTwoStatus map[string]bool
 }
 
 func kindsOf(items []item) string {
@@ -696,6 +700,33 @@ func reportDiffs(c *ctx, chain []*builtBlock, t int, diffs []diffEntry, where st
 			}
 		}
 		kinds := blame(chain[blamed-1].items, d.Path)
+		if bb := chain[blamed-1]; len(bb.items) >= 2 && bb.before != nil {
+			// which item alone is enough?  (every item of a block is valid on its own: all are
+			// checked against the pre-block state)
+			for _, it := range bb.items {
+				variant := build(bb.height, []item{it}, bb.nid, bb.before, bb.fork)
+				ch := append(append([]*builtBlock{}, chain[:blamed-1]...), variant)
+				dd2, err := directDumps(ch)
+				if err != nil {
+					continue
+				}
+				ds, ai, err := differential(ch, blamed-1, dd2)
+				if err != nil {
+					continue
+				}
+				ai.free()
+				hit := false
+				for _, x := range ds {
+					if fieldClass(x.Path) == cl {
+						hit = true
+					}
+				}
+				if hit {
+					kinds = it.K
+					break
+				}
+			}
+		}
 		key := "C21:rollback-diff:" + cl + ":" + kinds
 		rep.Violation(key, fmt.Sprintf("%s: after RollbackTo(%d) from height %d the field %s is %q, the state built directly from the blocks <= %d has %q "+
 			"(difference appears as soon as block %d = [%s] is rolled back)", where, t, n, d.Path, d.A, t, d.B, blamed, kindsOf(chain[blamed-1].items)),
@@ -761,6 +792,18 @@ func replayOne(c *ctx, idx int) bool {
 					}
 				}
 			}
+			if why := rep.Str(st, "why"); why == "two-status-changes" {
+				// named deviation: one producer's status changes twice in this block
+				c.stats["two-status-blocks"]++
+				if !c.seenTwoStatus[kindsOf(bb.items)] || c.stats["two-status-demos"] < 40 {
+					c.seenTwoStatus[kindsOf(bb.items)] = true
+					c.stats["two-status-demos"]++
+					if demoTwoStatus(chain, bb, rep.Int(st, "nid"), caseInfo(i)) {
+						okAll = false
+					}
+				}
+				continue
+			}
 			if !pre || dev {
 				// the spec refuses the block.  What does the real code do with it?
 				if allAccept {
@@ -776,10 +819,13 @@ func replayOne(c *ctx, idx int) bool {
 							fmt.Sprintf("step %d: every transaction of block %d [%v] passes its real SpecialContextCheck against the pre-block state; "+
 								"processing the block gives: %s", i, bb.height, bb.items, strings.Join(bad, "; ")), caseInfo(i))
 						okAll = false
-					} else if !pre {
-						rep.Mismatch(fmt.Sprintf("step %d: the real checkers accept %v which the spec's rule rejects, and no balance goes wrong", i, bb.items), caseInfo(i))
+					} else {
+						rep.Mismatch(fmt.Sprintf("step %d: the real checkers accept %v which the spec refuses (%s), and no balance goes wrong", i, bb.items, rep.Str(st, "why")), caseInfo(i))
 						return false
 					}
+				} else if dev {
+					rep.Mismatch(fmt.Sprintf("step %d: the spec expects the real checkers to accept every transaction of %v (deviation %s)", i, bb.items, rep.Str(st, "why")), caseInfo(i))
+					return false
 				}
 				continue
 			}
@@ -906,6 +952,66 @@ func demonstrate(chain []*builtBlock, bb *builtBlock) []string {
 	return bad
 }
 
+// demoTwoStatus shows on the real code what a block that changes one producer's status
+// twice leads to: (C21) with a fixed follow-up block (nothing, or further illegal evidence
+// about one producer) the rollback of the follow-up / of both blocks is compared with the
+// direct build; (C28) empty blocks follow until every v2 producer has expired and the
+// balances are evaluated.
+func demoTwoStatus(chain []*builtBlock, bb *builtBlock, nid int, caseInfo map[string]interface{}) bool {
+	found := false
+	base := append(append([]*builtBlock{}, chain...), bb)
+	n := len(base)
+	follow := [][]item{nil}
+	for _, p := range prodNames {
+		follow = append(follow, []item{{K: "Illegal", P: p, A: "-"}})
+	}
+	for _, f := range follow {
+		ch := base
+		if f != nil {
+			ch = append(append([]*builtBlock{}, base...), build(bb.height+1, f, nid+8, bb.after, 9))
+		}
+		dd, err := directDumps(ch)
+		if err != nil {
+			continue
+		}
+		for t := len(ch) - 1; t >= n-1 && !found; t-- {
+			ds, a, err := differential(ch, t, dd)
+			if err != nil {
+				continue
+			}
+			a.free()
+			if len(ds) > 0 {
+				found = true
+				d := ds[0]
+				rep.Violation("C21:rollback-diff:two-status-changes-one-block",
+					fmt.Sprintf("block %d %v changes the status of one producer twice (both changes are decided against the pre-block state); "+
+						"follow-up block %v; after RollbackTo(%d) from %d field %s is %q, built directly %q (%d fields differ)",
+						bb.height, bb.items, f, t, len(ch), d.Path, d.A, d.B, len(ds)), caseInfo)
+			}
+		}
+		if found {
+			break
+		}
+	}
+	in, err := buildDirect(base)
+	defer in.free()
+	if err == nil {
+		for h := bb.height + 1; h <= uint32(specSU)+2 && h < bb.height+30; h++ {
+			if err := in.process(&builtBlock{height: h, block: mkBlock(h, nil)}); err != nil {
+				break
+			}
+			if bad := in.balances(nil); len(bad) > 0 {
+				found = true
+				rep.Violation("C28:balance:two-status-changes-one-block",
+					fmt.Sprintf("block %d %v changes the status of one producer twice; after the empty blocks up to %d: %s",
+						bb.height, bb.items, h, strings.Join(bad, "; ")), caseInfo)
+				break
+			}
+		}
+	}
+	return found
+}
+
 func compact(b rep.Behaviour) []interface{} {
 	var res []interface{}
 	for _, st := range b {
@@ -959,7 +1065,7 @@ func main() {
 			specSU, _ = strconv.Atoi(os.Args[4])
 		}
 		behs := rep.ReadBehaviours(os.Args[2])
-		c := &ctx{span: span, stats: map[string]int{}}
+		c := &ctx{span: span, stats: map[string]int{}, seenTwoStatus: map[string]bool{}}
 		okN, steps := 0, 0
 		for i, b := range behs {
 			c.beh = b
